@@ -452,3 +452,17 @@ func SameHeaderOtherCommit(b *advBlock) *advBlock {
 	ps := blk.MakePartSet(types.BlockPartSizeBytes)
 	return &advBlock{blk, ps, types.BlockID{Hash: blk.Hash(), PartsHeader: ps.Header()}, false}
 }
+
+// PickFakeID returns the k-th fabricated block id.
+func (a *Adversary) PickFakeID(k int) types.BlockID {
+	return types.BlockID{Hash: common.BytesToHash([]byte(fmt.Sprint("fake block ", k))), PartsHeader: types.PartSetHeader{Total: 1, Hash: common.BytesToHash([]byte(fmt.Sprint("fake parts ", k)))}}
+}
+
+// SignVoteChain signs vote v of validator idx for another chain id and returns the signature.
+func (a *Adversary) SignVoteChain(chainID string, idx int, v *types.Vote) []byte {
+	sig, err := crypto.Sign(crypto.Keccak256(types.VoteSignBytes(chainID, v.ToProto())), a.Net.Keys[idx])
+	if err != nil {
+		panic(err)
+	}
+	return sig
+}
